@@ -149,6 +149,7 @@ def run_one(seed, i, tier):
     res = {"viol": None, "steps": out["steps"], "probes": {"preempt_in_op": out["preempt_in_op"], "lock_contended": out["contended"],
                                                              "switches": out["switches"], "small_capacity_runs": int(payload["cap"] is not None)},
            "faults": {"preemption": out["switches"], "forced_flush_capacity_runs": int(payload["cap"] is not None)}, "stats": {"ops": len(out["history"])}}
+    res["logd"] = digest(jsonable([payload["progs"], out["choices"], _thr.describe_history(out), out["final"]]))
     if out["preempt_in_op"]:
         res["sig"] = digest([payload["shape"], payload["cap"] is None, [[(o["h"], o["name"]) for o in p] for p in payload["progs"]], out["switch_sites"]])
     if i % 499 == 0 or v:
